@@ -158,4 +158,257 @@ theorem InBounds.length {i d : Idx} (h : InBounds i d) : i.length = d.length := 
   | nil => rfl
   | cons _ _ _ _ ih => simp [ih]
 
+theorem SliceOK.pos {P l d s : Idx} (h : SliceOK P l d s) :
+    Pos P ∧ Pos d ∧ Pos s ∧ ∀ x ∈ l, 0 ≤ x := by
+  have hI := h.toI; clear h
+  induction hI with
+  | nil => simp [Pos]
+  | @cons P l d s ps ls ds ss h0 hd hs hlt _ _ ih =>
+    obtain ⟨a, b, c, e⟩ := ih
+    have : 0 ≤ (d - 1) * s := Int.mul_nonneg (by omega) (by omega)
+    refine ⟨?_, ?_, ?_, ?_⟩ <;> intro x hx <;> rcases List.mem_cons.mp hx with rfl | hx
+    · omega
+    · exact a x hx
+    · exact hd
+    · exact b x hx
+    · exact hs
+    · exact c x hx
+    · exact h0
+    · exact e x hx
+
+/-- composing an in-bounds slice request with the box of the parent gives the box of the child -/
+theorem SliceOK.comp {D b P S l d s : Idx} (hb : SliceOK D b P S) (hs : SliceOK P l d s) :
+    SliceOK D (affine b l S) d (mulL S s) := by
+  have hI := hb.toI; clear hb
+  induction hI generalizing l d s with
+  | nil =>
+    cases l <;> cases d <;> cases s <;> simp_all [SliceOK, affine]
+  | @cons D0 b0 P0 S0 Ds bs Ps Ss h0 hP hS hlt _ _ ih =>
+    cases l with
+    | nil => cases d <;> cases s <;> simp [SliceOK] at hs
+    | cons l0 ls =>
+      cases d with
+      | nil => cases s <;> simp [SliceOK] at hs
+      | cons d0 ds =>
+        cases s with
+        | nil => simp [SliceOK] at hs
+        | cons s0 ss =>
+          simp only [SliceOK_cons] at hs
+          obtain ⟨g0, gd, gs, glt, grest⟩ := hs
+          simp only [affine_cons, mulL_cons, SliceOK_cons]
+          refine ⟨?_, gd, ?_, ?_, ih grest⟩
+          · have := Int.mul_nonneg g0 (by omega : (0:Int) ≤ S0); omega
+          · have := Int.mul_pos (by omega : (0:Int) < S0) (by omega : (0:Int) < s0); omega
+          · have h1 : (l0 + (d0 - 1) * s0) * S0 ≤ (P0 - 1) * S0 :=
+              Int.mul_le_mul_of_nonneg_right (by omega) (by omega)
+            have h2 : b0 + l0 * S0 + (d0 - 1) * (S0 * s0) = b0 + (l0 + (d0 - 1) * s0) * S0 := by ring
+            omega
+
+/-- an in-bounds index of the child, pushed through the box, is in-bounds for the root -/
+theorem SliceOK.inBounds {D b d S i : Idx} (hb : SliceOK D b d S) (hi : InBounds i d) :
+    InBounds (affine b i S) D := by
+  have hI := hb.toI; clear hb
+  induction hI generalizing i with
+  | nil => cases i <;> simp_all [InBounds, affine]
+  | @cons D0 b0 d0 S0 Ds bs ds Ss h0 hd hS hlt _ _ ih =>
+    cases i with
+    | nil => simp [InBounds] at hi
+    | cons i0 is =>
+      simp only [InBounds_cons] at hi
+      obtain ⟨g0, glt, grest⟩ := hi
+      simp only [affine_cons, InBounds_cons]
+      refine ⟨?_, ?_, ih grest⟩
+      · have := Int.mul_nonneg g0 (by omega : (0:Int) ≤ S0); omega
+      · have h1 : i0 * S0 ≤ (d0 - 1) * S0 := Int.mul_le_mul_of_nonneg_right (by omega) (by omega)
+        omega
+
+/-- `affine b · S` is injective on indices of full length when all steps are ≥ 1 -/
+theorem SliceOK.affine_inj {D b d S i j : Idx} (hb : SliceOK D b d S)
+    (hi : i.length = d.length) (hj : j.length = d.length) (h : affine b i S = affine b j S) : i = j := by
+  have hI := hb.toI; clear hb
+  induction hI generalizing i j with
+  | nil =>
+    cases i <;> cases j <;> simp_all
+  | @cons D0 b0 d0 S0 Ds bs ds Ss h0 hd hS hlt _ _ ih =>
+    cases i with
+    | nil => simp at hi
+    | cons i0 is =>
+      cases j with
+      | nil => simp at hj
+      | cons j0 js =>
+        simp only [affine_cons, List.cons.injEq] at h
+        have e : i0 = j0 := by
+          have : i0 * S0 = j0 * S0 := by omega
+          exact Int.eq_of_mul_eq_mul_right (by omega) this
+        rw [e, ih (by simpa using hi) (by simpa using hj) h.2]
+
+theorem affine_length : ∀ (b i s : Idx), i.length = b.length → s.length = b.length →
+    (affine b i s).length = b.length
+  | [], _, _, _, _ => by simp [affine]
+  | _ :: _, [], _, h, _ => by simp at h
+  | _ :: _, _ :: _, [], _, h => by simp at h
+  | b :: bs, i :: is, s :: ss, h1, h2 => by
+    simp [affine_length bs is ss (by simpa using h1) (by simpa using h2)]
+
+theorem dot_affine : ∀ (b l s o : Idx), l.length = b.length → s.length = b.length → o.length = b.length →
+    dot (affine b l s) o = dot b o + dot l (mulL s o)
+  | [], _, _, _, _, _, _ => by simp [affine]
+  | _ :: _, [], _, _, h, _, _ => by simp at h
+  | _ :: _, _ :: _, [], _, _, h, _ => by simp at h
+  | _ :: _, _ :: _, _ :: _, [], _, _, h => by simp at h
+  | b :: bs, l :: ls, s :: ss, o :: os, h1, h2, h3 => by
+    simp only [affine_cons, dot_cons, mulL_cons,
+      dot_affine bs ls ss os (by simpa using h1) (by simpa using h2) (by simpa using h3)]
+    ring
+
+/-- `affine (affine b l S) i (S ⊙ s) = affine b (affine l i s) S`: composition of two affine index maps -/
+theorem affine_affine : ∀ (b l S i s : Idx), l.length = b.length → S.length = b.length → i.length = b.length →
+    s.length = b.length → affine (affine b l S) i (mulL S s) = affine b (affine l i s) S
+  | [], _, _, _, _, _, _, _, _ => by simp [affine]
+  | _ :: _, [], _, _, _, h, _, _, _ => by simp at h
+  | _ :: _, _ :: _, [], _, _, _, h, _, _ => by simp at h
+  | _ :: _, _ :: _, _ :: _, [], _, _, _, h, _ => by simp at h
+  | _ :: _, _ :: _, _ :: _, _ :: _, [], _, _, _, h => by simp at h
+  | b :: bs, l :: ls, S :: Ss, i :: is, s :: ss, h1, h2, h3, h4 => by
+    simp only [affine_cons, mulL_cons, List.cons.injEq]
+    refine ⟨by ring, affine_affine bs ls Ss is ss (by simpa using h1) (by simpa using h2) (by simpa using h3)
+      (by simpa using h4)⟩
+
+/-! ### the structural invariant -/
+
+/-- Structural invariant of a view: strides are the row-major strides of the allocated shape, `OffsetStep = Step ⊙ Offset`,
+and there is a lower corner `b` (in root coordinates) with `Start = Σ bᵢ·Offsetᵢ` such that the box
+`bᵢ + [0, dimsᵢ)·stepᵢ` lies inside the allocated shape (this also gives: all lists have the same length,
+extents ≥ 1, steps ≥ 1, allocated extents ≥ 1). -/
+structure Geo (v : View) : Prop where
+  ne : v.orig ≠ []
+  offset_eq : v.offset = offsetsT v.orig
+  offStep_eq : v.offStep = mulL v.step v.offset
+  box : ∃ b, SliceOK v.orig b v.dims v.step ∧ v.start = dot b v.offset
+
+namespace Geo
+variable {v : View}
+
+theorem rank_orig (g : Geo v) : v.orig.length = v.dims.length := by
+  obtain ⟨b, hb, _⟩ := g.box; exact hb.lengths.2.1.symm
+theorem rank_step (g : Geo v) : v.step.length = v.dims.length := by
+  obtain ⟨b, hb, _⟩ := g.box; rw [hb.lengths.2.2, hb.lengths.2.1]
+theorem rank_offset (g : Geo v) : v.offset.length = v.dims.length := by
+  rw [g.offset_eq, offsetsT_length, g.rank_orig]
+theorem rank_offStep (g : Geo v) : v.offStep.length = v.dims.length := by
+  rw [g.offStep_eq, mulL_length _ _ (by rw [g.rank_step, g.rank_offset]), g.rank_step]
+theorem pos_dims (g : Geo v) : Pos v.dims := by obtain ⟨b, hb, _⟩ := g.box; exact hb.pos.2.1
+theorem pos_step (g : Geo v) : Pos v.step := by obtain ⟨b, hb, _⟩ := g.box; exact hb.pos.2.2.1
+theorem pos_orig (g : Geo v) : Pos v.orig := by obtain ⟨b, hb, _⟩ := g.box; exact hb.pos.1
+theorem dims_ne (g : Geo v) : v.dims ≠ [] := by
+  intro h; have := g.rank_orig; rw [h] at this; exact g.ne (List.length_eq_zero_iff.mp this)
+
+end Geo
+
+/-- closed form of `View.root` (never panics on a non-empty shape) -/
+theorem root_eq (dims : Idx) (st : Int) (hne : dims ≠ []) :
+    View.root dims st = .ok { orig := dims, dims := dims, start := st, offset := offsetsT dims,
+      step := uniform dims.length 1, offStep := offsetsT dims } := by
+  have h1 : offsets dims = .ok (offsetsT dims) := by
+    cases dims with
+    | nil => exact absurd rfl hne
+    | cons d ds => simp [offsets]
+  have h2 : multiply (uniform dims.length 1) (offsetsT dims) = .ok (offsetsT dims) := by
+    rw [multiply_ok _ _ (by simp [offsetsT_length])]
+    have := mulL_ones_left (offsetsT dims)
+    rw [offsetsT_length] at this
+    rw [this]
+  simp [View.root, h1, h2, bind, Except.bind, pure, Except.pure]
+
+theorem sliceOK_zero_ones : ∀ (dims : Idx), Pos dims →
+    SliceOK dims (uniform dims.length 0) dims (uniform dims.length 1)
+  | [], _ => by simp [uniform]
+  | d :: ds, h => by
+    have h1 : 1 ≤ d := h d (by simp)
+    have h2 : Pos ds := fun x hx => h x (by simp [hx])
+    simp only [List.length_cons, uniform_succ, SliceOK_cons]
+    exact ⟨by omega, h1, by omega, by omega, sliceOK_zero_ones ds h2⟩
+
+theorem dot_zeros : ∀ (n : Nat) (o : Idx), dot (uniform n 0) o = 0
+  | 0, _ => by simp [uniform]
+  | n + 1, [] => by simp
+  | n + 1, o :: os => by simp [uniform_succ, dot_zeros n os]
+
+theorem geo_root {dims : Idx} {v : View} (hne : dims ≠ []) (hpos : Pos dims) (h : View.root dims = .ok v) :
+    Geo v := by
+  rw [root_eq dims 0 hne] at h
+  injection h with h
+  subst h
+  refine ⟨hne, rfl, ?_, uniform dims.length 0, sliceOK_zero_ones dims hpos, by simp [dot_zeros]⟩
+  have := mulL_ones_left (offsetsT dims)
+  rw [offsetsT_length] at this
+  exact this.symm
+
+/-- closed form of `SliceInto` on a `Geo` view: it never panics when `loc` (and `step`, if given) have the view's
+rank, and composes start and steps affinely. -/
+theorem sliceInto_eq {v : View} (g : Geo v) (loc dims : Idx) (step : Option Idx)
+    (hloc : loc.length = v.dims.length) (hstep : (stepOr v.dims.length step).length = v.dims.length) :
+    v.sliceInto loc dims step = .ok { orig := v.orig, dims := dims, start := v.start + dot loc v.offStep,
+      offset := v.offset, step := mulL v.step (stepOr v.dims.length step),
+      offStep := mulL (mulL v.step (stepOr v.dims.length step)) v.offset } := by
+  have h1 : dotProduct loc v.offStep = .ok (dot loc v.offStep) :=
+    dotProduct_ok _ _ (by rw [g.rank_offStep, hloc]; exact Nat.le_refl _)
+  cases step with
+  | none =>
+    have e : mulL v.step (stepOr v.dims.length none) = v.step := by
+      have := mulL_ones_right v.step
+      rw [g.rank_step] at this
+      exact this
+    have h2 : multiply v.step v.offset = .ok (mulL v.step v.offset) :=
+      multiply_ok _ _ (by rw [g.rank_step, g.rank_offset]; exact Nat.le_refl _)
+    rw [e]
+    simp [View.sliceInto, h1, h2, bind, Except.bind, pure, Except.pure]
+  | some s =>
+    have hs : s.length = v.dims.length := hstep
+    have h2 : multiply v.step s = .ok (mulL v.step s) :=
+      multiply_ok _ _ (by rw [g.rank_step, hs]; exact Nat.le_refl _)
+    have h3 : multiply (mulL v.step s) v.offset = .ok (mulL (mulL v.step s) v.offset) :=
+      multiply_ok _ _ (by rw [mulL_length _ _ (by rw [g.rank_step, hs]), g.rank_step, g.rank_offset]; exact Nat.le_refl _)
+    simp [View.sliceInto, stepOr, h1, h2, h3, bind, Except.bind, pure, Except.pure]
+
+/-- the invariant is preserved by an in-bounds slice -/
+theorem geo_slice {v w : View} {loc dims : Idx} {step : Option Idx} (g : Geo v)
+    (ok : SliceOK v.dims loc dims (stepOr v.dims.length step))
+    (h : v.sliceInto loc dims step = .ok w) : Geo w := by
+  obtain ⟨hl, hd, hs⟩ := ok.lengths
+  rw [sliceInto_eq g loc dims step hl hs] at h
+  injection h with h
+  subst h
+  obtain ⟨b, hb, hst⟩ := g.box
+  refine ⟨g.ne, g.offset_eq, rfl, affine b loc v.step, hb.comp ok, ?_⟩
+  show v.start + dot loc v.offStep = dot (affine b loc v.step) v.offset
+  rw [dot_affine b loc v.step v.offset (by rw [hl, hb.lengths.1, g.rank_orig])
+    (by rw [g.rank_step, hb.lengths.1, g.rank_orig]) (by rw [g.rank_offset, hb.lengths.1, g.rank_orig]),
+    hst, g.offStep_eq]
+
+/-- **G1.** every reachable view satisfies the structural invariant -/
+theorem reach_geo {v : View} (h : Reach v) : Geo v := by
+  induction h with
+  | root hne hpos h => exact geo_root hne hpos h
+  | slice _ ok h ih => exact geo_slice ih ok h
+
+/-- **G1 (no panic).** an in-bounds slice request on a reachable view never panics -/
+theorem reach_slice_ok {v : View} (h : Reach v) {loc dims : Idx} {step : Option Idx}
+    (ok : SliceOK v.dims loc dims (stepOr v.dims.length step)) :
+    ∃ w, v.sliceInto loc dims step = .ok w ∧ Reach w := by
+  obtain ⟨hl, _, hs⟩ := ok.lengths
+  exact ⟨_, sliceInto_eq (reach_geo h) loc dims step hl hs, .slice h ok (sliceInto_eq (reach_geo h) loc dims step hl hs)⟩
+
+/-- **G2.** closed form of `Index` (never panics for `loc` no longer than the rank) -/
+theorem index_eq {v : View} (g : Geo v) (loc : Idx) (hloc : loc.length ≤ v.dims.length) :
+    v.index loc = .ok (v.start + dot loc (mulL v.step v.offset)) := by
+  have h1 : View.indexAux loc v.offStep = .ok (dot loc v.offStep) :=
+    indexAux_ok _ _ (by rw [g.rank_offStep]; exact hloc)
+  simp [View.index, h1, g.offStep_eq, bind, Except.bind, pure, Except.pure]
+
+/-- **G1 (no panic).** `Index` never panics on an index of the view's rank -/
+theorem index_ok {v : View} (h : Reach v) (loc : Idx) (hloc : loc.length = v.dims.length) :
+    ∃ p, v.index loc = .ok p :=
+  ⟨_, index_eq (reach_geo h) loc (by omega)⟩
+
 end OW.Nd
